@@ -91,7 +91,17 @@ def gen_one(rng, tier, scale=False):
         coros.append({'start': rng.randrange(max(1, nframes // 2))
                       if rng.random() < 0.9 else None, 'script': script})
     case = {'coros': coros, 'dts': dts}
-    if not scale and rng.random() < 0.15:
+    if not scale and rng.random() < 0.08:
+        # one body yields something that is no usable amount of time (a
+        # string, a list, an integer beyond the float range, a Decimal):
+        # what becomes of THAT coroutine is not stated; the others must not
+        # be disturbed, whether process() raises or not
+        c = rng.randrange(nc)
+        script = coros[c]['script']
+        script.insert(rng.randint(0, len(script)),
+                      {'bad': rng.choice(['str', 'list', 'huge',
+                                          'decimal'])})
+    elif not scale and rng.random() < 0.15:
         # one body raises at some step (desper.switch()/quit_loop() called
         # from a coroutine work by raising): that frame fails, the others
         # must carry on from the next frame as if nothing had happened
@@ -161,6 +171,12 @@ def run_case(case):
             if isinstance(item, dict) and item.get('raise'):
                 fault.append(HarnessError(f'coroutine {uid} raises'))
                 raise fault[-1]
+            if isinstance(item, dict) and item.get('bad'):
+                import decimal
+                offender.add(uid)
+                yield {'str': '2', 'list': [1], 'huge': 10 ** 400,
+                       'decimal': decimal.Decimal('0.5')}[item['bad']]
+                continue
             if isinstance(item, dict) and 'spawn' in item:
                 k = item['spawn']
                 if not started[k]:
@@ -178,6 +194,8 @@ def run_case(case):
 
     model = {}
     fault = []
+    offender = set()    # coroutines that yielded an unusable value
+    judged_out = set()
     waits_started = {}          # uid -> frame at which the wait started
     overlap_uneven = False
     prev_order = None
@@ -210,6 +228,11 @@ def run_case(case):
                 # the frame was abandoned where the body raised
                 failed = True
                 res.stats['frames_failed_by_a_raising_body'] += 1
+            elif offender - judged_out and isinstance(
+                    ex, (TypeError, OverflowError, ValueError)):
+                # ... or where the unusable value was refused
+                failed = True
+                res.stats['frames_failed_by_an_unusable_yield'] += 1
             else:
                 res.div(f, 'process-raised', f'{type(ex).__name__}: {ex}',
                         'no exception', repr(ex))
@@ -219,7 +242,15 @@ def run_case(case):
             res.div(f, 'fault-not-propagated', 'a coroutine raised but '
                     'process() returned normally', repr(fault[-1]), None)
             break
-        steps = log[before:]
+        if offender - judged_out:
+            # from the frame of the unusable yield on, that coroutine is
+            # not judged any more (nor expected to step)
+            judged_out |= offender
+            res.tags['unusable_yield'].add('raised' if failed else 'accepted')
+        steps = [e for e in log[before:] if e[1] not in judged_out
+                 or e[1] in expected and e[1] not in offender]
+        steps = [e for e in log[before:] if e[1] not in judged_out]
+        expected -= judged_out
         res.stats['frames'] += 1
         res.stats['steps_checked'] += len(steps)
         seen = {}
